@@ -112,6 +112,11 @@ static size_t random_numeral(char *o, int type)
                 if (chance(3)) *p++ = "a -+.x"[rn(6)];
                 if (chance(2)) { memmove(o + 1, o, (size_t)(p - o)); o[0] = ' '; p++; }
         }
+        if (chance(2) && p > o) {      /* a terminal control sequence (cursor key, ESC [ ... letter) somewhere in the numeral: never part of a number */
+                static const char *seq[4] = { "\x1b[C", "\x1b[1;5D", "\x1b[A", "\x1b[2~" };
+                const char *q = seq[rn(4)]; size_t L = strlen(q), at = rn((unsigned)(p - o) + 1);
+                memmove(o + at + L, o + at, (size_t)(p - o) - at); memcpy(o + at, q, L); p += L;
+        }
         *p = 0;
         return (size_t)(p - o);
 }
